@@ -35,10 +35,14 @@ def configs(tier):
     q = tier == "quick"
     kmax, K = (6, 6) if q else (9, 10)
     return [{"name": "exponential", "kind": "exponential", "kmax": kmax}, {"name": "poisson", "kind": "poisson", "kmax": kmax},
-            {"name": "power_law", "kind": "power_law", "kmax": kmax, "K": K}, {"name": "scale_free_cut_off", "kind": "cutoff", "kmax": kmax, "K": K}]
+            {"name": "power_law", "kind": "power_law", "kmax": kmax, "K": K}, {"name": "scale_free_cut_off", "kind": "cutoff", "kmax": kmax, "K": K},
+            {"name": "scale_free_cut_off-second-factory", "kind": "cutoff", "kmax": 3, "K": 4, "second": True},
+            {"name": "power_law-second-factory", "kind": "power_law", "kmax": 3, "K": 4, "second": True}]
 
 
 def hexp(ctx, x):
+    if isinstance(x, (int, float)):
+        return math.exp(x)
     if ctx.mode == "sym":
         from symx import uf
         return uf.EXP(SymReal.of(x))
@@ -46,10 +50,19 @@ def hexp(ctx, x):
 
 
 def hpow(ctx, b, x):
+    if isinstance(b, (int, float)) and isinstance(x, (int, float)):
+        return math.pow(b, x)
     if ctx.mode == "sym":
         from symx import uf
         return uf.POW(SymReal.of(b), SymReal.of(x))
     return math.pow(b, x)
+
+
+def near(a, b, tol=1e-9):
+    """|a-b| <= tol: used where concrete float arithmetic of the library (already rounded) meets exact symbolic terms"""
+    if isinstance(a, (int, float)) and isinstance(b, (int, float)):
+        return abs(a - b) <= tol
+    return all_([a - b <= tol, b - a <= tol])
 
 
 def exp_hom_axioms(ctx, kmax):
@@ -116,14 +129,20 @@ def path(ctx, cfg):
         from gcmpy.distributions.power_law import power_law
 
         alpha = ctx.real("alpha", 2, 40)
+        if cfg.get("second"):
+            # another distribution was built earlier in the same process: nothing of it may be reused
+            ctx.guard("factory-raised", power_law, 3.0)
         if ctx.mode == "sym":
             from symx import uf
             uf.UF_LIMIT = K
+            ctx.__dict__["_uf_count"] = 0
+            d0 = len(ctx.trace)
         p = ctx.guard("factory-raised", power_law, alpha)
         if ctx.mode == "sym":
             from symx import uf
             uf.UF_LIMIT = 4 * K + 40
-            n_terms = ctx.__dict__.get("_uf_count", 0) + 1  # POW(1, alpha) is folded to 1
+            # one solver-decided comparison per loop iteration, except the first (1/1**s = 1.0 is decided concretely)
+            n_terms = len(ctx.trace) - d0 + 1
         else:
             n_terms = None
         vals = {k: ctx.guard("pmf-raised", p, k) for k in range(1, kmax + 1)}
@@ -160,14 +179,20 @@ def path(ctx, cfg):
 
         alpha = ctx.real("alpha", 2, 40)
         kappa = ctx.real("kappa", 0, 50, lo_strict=True)
+        if cfg.get("second"):
+            # the same alpha with another kappa was used earlier in the same process: nothing of it may be reused
+            alpha = 8.0  # concrete exponent shared by both factories, kappa differs (first concrete, second symbolic)
+            ctx.guard("factory-raised", scale_free_cut_off, alpha, 5.0)
         if ctx.mode == "sym":
             from symx import uf
             uf.UF_LIMIT = K + 1
+            ctx.__dict__["_uf_count"] = 0
+            d0 = len(ctx.trace)
         p = ctx.guard("factory-raised", scale_free_cut_off, alpha, kappa)
         if ctx.mode == "sym":
             from symx import uf
             uf.UF_LIMIT = 6 * K + 60
-            n_terms = ctx.__dict__.get("_uf_count", 0)  # EXP(-1/kappa) once + POW(j, alpha) for j>=2
+            n_terms = len(ctx.trace) - d0  # one solver-decided comparison per loop iteration
         else:
             n_terms = None
         z = hexp(ctx, -1.0 / kappa)
@@ -188,12 +213,13 @@ def path(ctx, cfg):
         rhs = {k: hpow(ctx, k + 0.0, -alpha) * hexp(ctx, -(k + 0.0) / kappa) for k in vals}
         pow_axioms(ctx)
         exp_hom_axioms(ctx, max(kmax, n_terms))
-        ctx.require(all_(eq(vals[k] * C, rhs[k]) for k in vals), "cutoff-values", f"scale_free_cut_off(k) != k^-alpha e^(-k/kappa) / sum_(j<={n_terms}) ...",
+        same = near if cfg.get("second") else eq  # concrete exponent: the library's own float powers are already rounded
+        ctx.require(all_(same(vals[k] * C, rhs[k]) for k in vals), "cutoff-values", f"scale_free_cut_off(k) != k^-alpha e^(-k/kappa) / sum_(j<={n_terms}) ...",
                     twin=eq(vals[1] * C, rhs[2]))
         ctx.require(all_(v >= 0 for v in vals.values()), "cutoff-values", "negative probability")
         s = 0
         for k in range(1, n_terms + 1):
             s = s + vals[k]
-        ctx.require(eq(s, 1), "cutoff-normalised-on-truncated-support", f"sum_(k<={n_terms}) p(k) != 1", twin=eq(s, 2))
+        ctx.require(same(s, 1), "cutoff-normalised-on-truncated-support", f"sum_(k<={n_terms}) p(k) != 1", twin=eq(s, 2))
         return
     raise ValueError(kind)
